@@ -54,6 +54,7 @@ type copyCase struct {
 	dstRef  string
 	cancel  bool
 	label   string
+	fsFault int // >0: while this node (id+1) is read from the source, its blob path in an OCI destination becomes a directory
 }
 
 func genCopyCase(rng *rand.Rand, mode string, big bool) copyCase {
@@ -121,6 +122,16 @@ func runCopy(mode string, seed int64, tier string, sc *Script) map[string]any {
 			r.faults = faults
 			r.maxDelay = cc.delay
 			r.hold = cc.hold
+			if cc.fsFault > 0 && cc.dst == "oci" && faults == nil && pre != "keep" {
+				nd := cc.u.Nodes[cc.fsFault-1]
+				p := filepath.Join(dir, "blobs", nd.Desc.Digest.Algorithm().String(), nd.Desc.Digest.Encoded())
+				r.onFetch[nd.ID] = func() {
+					// the final rename of the verified ingest file will fail
+					os.MkdirAll(filepath.Join(p, "blocker"), 0o755)
+					atomic.AddInt32(&r.fired, 1)
+				}
+				defer os.RemoveAll(p)
+			}
 			runCtx, cancel := context.WithCancel(ctx)
 			r.cancel = cancel
 			defer cancel()
@@ -218,6 +229,39 @@ func runCopy(mode string, seed int64, tier string, sc *Script) map[string]any {
 		cc := genCopyCase(rng, mode, tier == "thorough" && i%10 == 0)
 		switch mode {
 		case "C01":
+			if cc.dst == "oci" && i%4 == 1 {
+				// a file-system fault inside the destination's Push of one not yet present blob
+				var cands []int
+				pre := map[int]bool{}
+				for _, p := range cc.pre {
+					pre[p] = true
+				}
+				for _, k := range downClosure(cc.u, cc.roots) {
+					nd := cc.u.Nodes[k]
+					shared := false
+					for _, m := range cc.u.Nodes {
+						if m.ID != k && m.Desc.Digest == nd.Desc.Digest {
+							shared = true
+						}
+					}
+					if !nd.Kind.IsManifest() && nd.Kind != KForeign && !pre[k] && !shared && len(nd.Bytes) > 0 {
+						cands = append(cands, k)
+					}
+				}
+				// (universes with the same bytes under two media types are finding F10's
+				// territory on a digest-keyed destination: no further fault there)
+				seen := map[string]bool{}
+				for _, m := range cc.u.Nodes {
+					if seen[string(m.Desc.Digest)] {
+						cands = nil
+					}
+					seen[string(m.Desc.Digest)] = true
+				}
+				if len(cands) > 0 {
+					cc.fsFault = cands[rng.Intn(len(cands))] + 1
+					cc.label = "fsfault-oci"
+				}
+			}
 			if i%3 == 0 {
 				cc.useCopy = true
 				cc.label = "copy-" + string(cc.dst)
@@ -295,6 +339,65 @@ func runCopy(mode string, seed int64, tier string, sc *Script) map[string]any {
 				faults: []fault{{op: op, node: shared.ID, mode: "before"}}, label: "shared-failing-kid"}
 			exec(cc, caseNo)
 			caseNo++
+		}
+	}
+	// C02: ExtendedCopyGraph from a node shared by several roots, with a fault on that node:
+	// the roots are copied by sibling tasks; the failure of one must end the others (no hang),
+	// surface as an error, leave the destination link-closed, and a retry completes
+	if mode == "C02" {
+		reps := 40
+		if tier == "thorough" {
+			reps = 800
+		}
+		for i := 0; i < reps; i++ {
+			u := NewUniverse()
+			cfgB := u.AddBlob(ocispec.MediaTypeImageConfig, []byte(fmt.Sprintf("{\"xi\":%d}", i)))
+			shared := u.AddBlob(ocispec.MediaTypeImageLayer, []byte(fmt.Sprintf("xshared-%d", i)))
+			nroots := 2 + rng.Intn(3)
+			for k := 0; k < nroots; k++ {
+				own := u.AddBlob(ocispec.MediaTypeImageLayer, []byte(fmt.Sprintf("xown-%d-%d", i, k)))
+				u.AddImage(KOCIManifest, cfgB.ID, []int{own.ID, shared.ID}, -1, "", map[string]string{"k": fmt.Sprint(k)})
+			}
+			sc.Case("extended-shared-fault")
+			sc.NonTrivial()
+			src := memory.New()
+			all := make([]int, len(u.Nodes))
+			for j := range all {
+				all[j] = j
+			}
+			pushAll(ctx, src, u, all)
+			dstT := memory.New()
+			op := []string{"push", "fetch", "exists", "preCopy"}[rng.Intn(4)]
+			run := func(faults []fault) (string, *copyRun) {
+				r := newCopyRun(u, seed+int64(i))
+				r.faults = faults
+				r.maxDelay = time.Duration(100+rng.Intn(300)) * time.Microsecond
+				opts := oras.ExtendedCopyGraphOptions{CopyGraphOptions: r.options(2 + rng.Intn(3))}
+				isrc := &instrGraphSrc{instrSrc: instrSrc{inner: src, r: r}, g: src}
+				idst := &instrTarget{instrDst: instrDst{inner: dstT, r: r}, t: dstT}
+				done := make(chan error, 1)
+				go func() { done <- oras.ExtendedCopyGraph(ctx, isrc, idst, shared.Desc, opts) }()
+				select {
+				case err := <-done:
+					if err != nil {
+						return "err", r
+					}
+					return "ok", r
+				case <-time.After(15 * time.Second):
+					return "HANG", r
+				}
+			}
+			res, r1 := run([]fault{{op: op, node: shared.ID, mode: "before"}})
+			fired := atomic.LoadInt32(&r1.fired) > 0
+			sc.Op(res, "cp xend fired=%d", btoi(fired))
+			sc.Op(closedTruth(ctx, dstT, u), "cp xclosed")
+			if res != "HANG" {
+				res2, _ := run(nil)
+				sc.Op(res2, "cp xend fired=0")
+				sc.Op(presentSet(ctx, dstT, u), "cp xpresent all=%s", fmtSet(all))
+			}
+			runs++
+			sc.Count("extended-shared-fault:" + op)
 		}
 	}
 	// C02: exhaustive single faults on small graphs
